@@ -355,3 +355,19 @@ func init() {
 		fmt.Println("proven", proven, "unproven", unproven)
 	}
 }
+
+func init() {
+	dumpers["slicebounds"] = func(c *Ctx) {
+		r := NewReport("C07", "quick", c)
+		c.checkSliceBounds(r, "X", map[string]bool{"eval": true, "object": true, "extensions": true})
+		n := 0
+		for _, o := range r.Obls {
+			if o.status != OK {
+				fmt.Printf("%s | %s | %s | %s\n", o.Func, o.Desc, o.Pos, o.Reason)
+			} else {
+				n++
+			}
+		}
+		fmt.Println("ok", n)
+	}
+}
